@@ -8,6 +8,9 @@ Import ListNotations.
 Local Arguments tri_and : simpl never.
 Local Arguments tri_or : simpl never.
 Local Arguments tri_not : simpl never.
+(* the primitive combinators are used through their soundness lemmas only *)
+Local Arguments py_impl_and : simpl never.
+Local Arguments py_impl_or : simpl never.
 
 (* ---- Kleene algebra facts ------------------------------------------------------------------------ *)
 Ltac tri_cases := intros; repeat match goal with x : tri |- _ => destruct x end; reflexivity.
